@@ -165,7 +165,18 @@ Qed.
 
 Lemma getitem_gen_nonneg : forall (A : Type) (t : list A) i, 0 <= i ->
   getitem_gen t i = nth_error t (Z.to_nat i).
-Proof. intros A t i H. unfold getitem_gen. destruct (Z.ltb_spec i 0); [lia|reflexivity]. Qed.
+Proof.
+  intros A t i H. unfold getitem_gen. destruct (Z.ltb_spec i 0); [lia|].
+  destruct (Z.ltb_spec i (Z.of_nat (List.length t))); [reflexivity|].
+  symmetry. apply nth_error_None. lia.
+Qed.
+
+Lemma guarded_nth : forall (A : Type) (t : list A) i, 0 <= i ->
+  (if i <? Z.of_nat (List.length t) then nth_error t (Z.to_nat i) else None) = nth_error t (Z.to_nat i).
+Proof.
+  intros A t i H. destruct (Z.ltb_spec i (Z.of_nat (List.length t))); [reflexivity|].
+  symmetry. apply nth_error_None. lia.
+Qed.
 
 Lemma print_seg_fields : forall w gcol s w1 ds, print_seg w gcol s = (w1, ds) -> ds <> [].
 Proof.
@@ -203,6 +214,7 @@ Proof.
       pose proof (prefix_nth _ _ _ _ PN Hnn) as HN.
       destruct N as [|n0 N']; [destruct (Z.to_nat ni); discriminate|].
       rewrite getitem_gen_nonneg by exact Hni. rewrite HN.
+      rewrite guarded_nth by exact Hsi.
       rewrite (prefix_nth _ _ _ _ PS Hnth). reflexivity.
     + inversion H; subst; clear H. cbn [ws_srcs ws_names ws_ps] in *.
       cbn [parse_seg].
@@ -211,6 +223,7 @@ Proof.
       replace (ps_scol (ws_ps w) + (col - ps_scol (ws_ps w))) with col by lia.
       replace (gcol + (c - gcol)) with c by lia.
       destruct (Z.ltb_spec si 0); [lia|].
+      rewrite guarded_nth by exact Hsi.
       rewrite (prefix_nth _ _ _ _ PS Hnth). reflexivity.
   - exfalso. apply Hwf. reflexivity.
   - inversion H; subst; clear H. cbn [parse_seg].
